@@ -281,7 +281,8 @@ where
                         let loc_d_start = loc_d.1 + 1;
                         let loc_d_end = loc_d_start + (3 * (*data_len as usize)) - 1;
                         let data = if *data_len > 0 && loc_d_end < line.len() {
-                            hex_to_bytes(&line.as_str()[loc_d_start..loc_d_end])
+                            // get() as the data might contain non ascii chars (not at a char boundary)
+                            line.get(loc_d_start..loc_d_end).and_then(hex_to_bytes)
                         } else {
                             None
                         };
@@ -369,7 +370,8 @@ where
                         let loc_d_start = loc_d.1 + 1;
                         let loc_d_end = loc_d_start + (3 * (*data_len as usize)) - 1;
                         let data = if *data_len > 0 && loc_d_end < line.len() {
-                            hex_to_bytes(&line.as_str()[loc_d_start..loc_d_end])
+                            // get() as the data might contain non ascii chars (not at a char boundary)
+                            line.get(loc_d_start..loc_d_end).and_then(hex_to_bytes)
                         } else {
                             None
                         };
